@@ -197,7 +197,10 @@ _RE_FUNCS = {getattr(re, n): n for n in ("search", "fullmatch", "finditer", "mat
 class MatchHooks(PregexHooks):
     def __init__(self, model: Model, matches_for=None):
         super().__init__(model)
-        self.extract = model.method(PRE, "Pregex", "__extract_text")
+        try:
+            self.extract = model.method(PRE, "Pregex", "__extract_text")
+        except AnalysisError:
+            self.extract = None
         self.calls = []          # dicts
         self.extracted = []      # files opened
         self.opens = []          # bound arguments of every open()
@@ -271,7 +274,8 @@ class MatchHooks(PregexHooks):
 def pregex_obj(model: Model, hooks: MatchHooks, compiled: bool):
     o = make_operand(model, PAT, "Other", True, tag="matcher")
     if compiled:
-        o.fields["_Pregex__compiled"] = AbsCompiled(hooks, "<exported:" + PAT + ">", RE_FLAGS)
+        from ..absdom import cache_field
+        o.fields[cache_field(model)] = AbsCompiled(hooks, "<exported:" + PAT + ">", RE_FLAGS)
     return o
 
 
@@ -291,10 +295,10 @@ def run_method(model: Model, meth: str, args=(), kwargs=None, compiled=False, ma
 
 
 def matching_methods(model: Model):
-    """All methods of Pregex with an `is_path` parameter (name -> FuncInfo)."""
+    """All public methods of Pregex with an `is_path` parameter (name -> FuncInfo)."""
     out = {}
     for name, f in model.pregex.methods.items():
-        if "is_path" in f.params:
+        if "is_path" in f.params and not f.node.name.startswith("_"):
             out[f.node.name] = f
     return out
 
